@@ -44,15 +44,25 @@ def _work(i, conn, timeout, seed):
             return
         # portfolio over sound encodings of the same obligation (first unsat wins)
         variants = [("z3", o)] + [(f"z3/{nm}", alt) for nm, alt in getattr(o, "alternatives", [])]
+        if by.get("nlabs") == "first":
+            variants.insert(0, ("z3/nlabs", None))
+        elif by.get("nlabs", True):
+            variants.insert(1, ("z3/nlabs", None))
         notes = []
         for nm, v in variants:
+            if v is None:
+                try:
+                    v = _Abs(o)
+                except Exception as exc:
+                    notes.append(f"{nm}: abstraction failed ({exc})")
+                    continue
             s = _solver_for(v, to, seed)
             s.add(z3.Not(v.goal))
             r = s.check()
             if r == z3.unsat:
                 conn.send(("discharged", time.time() - t0, nm, "; ".join(notes)))
                 return
-            if r == z3.sat and nm.endswith("noax"):
+            if r == z3.sat and (nm.endswith("noax") or nm.endswith("nlabs")):
                 notes.append(f"{nm}: sat without definitions (not a refutation)")
                 continue
             if r == z3.sat:
@@ -64,6 +74,77 @@ def _work(i, conn, timeout, seed):
         conn.send(("error", time.time() - t0, "z3", f"{type(exc).__name__}: {exc}"))
     finally:
         conn.close()
+
+
+_NL = {}
+
+
+def _nl_funcs(sort):
+    key = sort.name()
+    if key not in _NL:
+        _NL[key] = (z3.Function("nl!mul", sort, sort, sort), z3.Function("nl!div", sort, sort, sort))
+    return _NL[key]
+
+
+def nl_abstract(t, cache=None):
+    """Replace non-linear real/int multiplications and divisions by uninterpreted functions.
+
+    Sound for proving (the uninterpreted reading admits every interpretation, including the real one);
+    a `sat` answer of the abstraction means nothing."""
+    cache = {} if cache is None else cache
+
+    def numeral(x):
+        return z3.is_rational_value(x) or z3.is_int_value(x)
+
+    def go(e):
+        k = e.get_id()
+        if k in cache:
+            return cache[k]
+        if z3.is_quantifier(e):
+            body = go(e.body())
+            if body.eq(e.body()):
+                r = e
+            else:
+                # rebuild quantifier with the same bound variables / patterns dropped
+                vs = [z3.Const(e.var_name(i), e.var_sort(i)) for i in range(e.num_vars())]
+                inst = z3.substitute_vars(body, *reversed(vs))
+                r = z3.ForAll(vs, inst) if e.is_forall() else (z3.Exists(vs, inst) if e.is_exists() else z3.Lambda(vs, inst))
+            cache[k] = r
+            return r
+        if not z3.is_app(e) or e.num_args() == 0:
+            cache[k] = e
+            return e
+        ch = [go(c) for c in e.children()]
+        kind = e.decl().kind()
+        if kind == z3.Z3_OP_MUL and e.sort().kind() in (z3.Z3_REAL_SORT, z3.Z3_INT_SORT):
+            nums = [c for c in ch if numeral(c)]
+            rest = [c for c in ch if not numeral(c)]
+            if len(rest) >= 2:
+                mul, _ = _nl_funcs(e.sort())
+                r = rest[0]
+                for c in rest[1:]:
+                    r = mul(r, c)
+                for c in nums:
+                    r = c * r
+                cache[k] = r
+                return r
+        if kind == z3.Z3_OP_DIV and not numeral(ch[1]):
+            _, div = _nl_funcs(e.sort())
+            r = div(ch[0], ch[1])
+            cache[k] = r
+            return r
+        r = e.decl()(*ch) if any(not a.eq(b) for a, b in zip(ch, e.children())) else e
+        cache[k] = r
+        return r
+    return go(t)
+
+
+class _Abs:
+    def __init__(self, o):
+        cache = {}
+        self.hyps = [nl_abstract(h, cache) for h in o.hyps]
+        self.goal = nl_abstract(o.goal, cache)
+        self.axioms = [nl_abstract(a, cache) for a in o.axioms]
 
 
 def _model_text(m, limit=6000):
